@@ -63,7 +63,8 @@ class Importer:
     def run(self, reader) -> Document:
         for row in reader:
             if len(row) <= 0:
-                # Found an empty row, usually the last one. Ignore it.
+                # Found an empty row, usually the last one. Ignore it, but keep counting the lines of the source.
+                self._row_number = self._row_number + 1
                 continue
 
             self._tree_stage = self._tree_stage + 1
